@@ -2,7 +2,7 @@
 integer-arithmetic core on every run (plugin of tools/extract.py; output lean/Chrono/Extracted/Gen.lean, namespace
 `Chrono.Gen`, one `def` per Rust function, named `<module>.<Type>.<fn>`, e.g. `Chrono.Gen.naive_internals.YearFlags.nisoweeks`).
 
-The theorems `gen_*_eq` in lean/Chrono/Props/Gen{Date,Delta,Weekday}.lean state that each generated definition
+The theorems `gen_*_eq` in lean/Chrono/Props/Gen{Date,Delta,Weekday,Time,…}.lean state that each generated definition
 equals the hand-written model (lean/Chrono/Model/*.lean) for all arguments of the machine types; they are proof
 obligations of C01 / C06 / C19, re-checked on every run against what the source says now.  What is trusted is this
 file: the reading of the Rust subset described below, plus lean/Chrono/GenRt.lean and Chrono/Prim.lean, which
@@ -17,8 +17,12 @@ THE SUBSET.
   items       `fn` / `const fn` (free, inherent `impl T`, `impl Trait for T`, trait default methods read at a given
               `Self`), non-generic, by-value / `&self` receivers; `const` / `static` items with integer, bool or
               struct-literal initialisers (evaluated at translation time, `as` wraps, result checked against the
-              declared type); `struct T(int)` and `struct T { one field }` are represented by that field;
-              `struct T { f: int, g: int, … }` by a generated Lean `structure` with `Int` fields; field-less `enum`s by
+              declared type); a `const` whose initialiser calls a `const fn` (`NaiveDate::BEFORE_MIN`) is read as a
+              function without parameters (`def …BEFORE_MIN : Res Int`; compile-time evaluation has the run-time
+              semantics, a panic there would be a compile error); `struct T(int)` and `struct T { one field }` are
+              represented by that field; `struct T { f: A, g: B, … }` by a generated Lean `structure` whose fields
+              have the Lean types of A, B, … (`Int` for integers, newtypes and field-less enums, the generated
+              structure for a nested struct: `NaiveDateTime { date: NaiveDate, time: NaiveTime }`); field-less `enum`s by
               their discriminant (an `Int`); `NonZeroI32` & co. by the underlying integer (`get`, `new_unchecked`
               are the identity); references are erased (all values are `Copy`).
   statements  `let` (with tuple / newtype patterns, shadowing), `let mut` with `=`, `+= -= *= /= %= <<= >>= &= |= ^=`
@@ -30,9 +34,11 @@ THE SUBSET.
               `true/false`, variables, constants, `iN::MAX/MIN`, `+ - * / % << >> & | ^ !` and unary `-`, comparisons,
               `&& || !`, `as` between integer types / from bool / from a field-less enum, `iN::from`, tuples, array
               literals and indexing of integer arrays, indexing of the tables tools/extract.py already translates
-              (YEAR_TO_FLAGS, MDL_TO_OL, OL_TO_MDL, YEAR_DELTAS: read from Extracted/Tables.lean), struct literals,
-              field access, calls of translated functions and methods, `Some/None`, `try_opt!(e)` and `e?` on Option,
-              `crate::expect(opt, msg)`, `.unwrap()`, `.is_some()/.is_none()`, `checked_add/sub/mul`,
+              (YEAR_TO_FLAGS, MDL_TO_OL, OL_TO_MDL, YEAR_DELTAS: read from Extracted/Tables.lean), struct literals
+              (also with a base, `T { f: e, ..base }`: the fields not listed are read from `base`, which is
+              evaluated after the listed fields), field access, calls of translated functions and methods, `Some/None`, `try_opt!(e)` and `e?` on Option,
+              `crate::expect(opt, msg)`, `.unwrap()`, `.unwrap_or(d)` on an Option of an integer-represented
+              type (`opt.getD d`; `d` is evaluated first, as in Rust), `.is_some()/.is_none()`, `checked_add/sub/mul`,
               `div_euclid/rem_euclid`, `abs`, `debug_assert!/assert!(…)`, `debug_assert_eq!/…_ne!`,
               `panic!/unreachable!`.
   refused     everything else, in particular: generics, closures, loops, `&mut`, floats, chars / strings as values,
@@ -71,6 +77,11 @@ SEMANTICS (the build under test: overflow checks and debug assertions ON, 64-bit
   asserts     `debug_assert!(c)` / `assert!(c)`: `if ¬c then .panic else …` (debug assertions are on in the harness).
   expect / unwrap on `None`, `panic!`, `unreachable!`: `.panic`.
   bools       conditions are Lean `Prop`s (`a < b ∧ c`); a bool that is stored, passed or returned is `decide (…)`.
+
+NAMES.  `<module>.<Type>.<fn>` for inherent and free functions, `<module>.<Type>.<Trait>.<fn>` for a method of
+`impl Trait for Type` and for a trait default method read at `Self = Type` (module = the trait's file).  When a local
+variable of the function is called like the module of a callee (`weekday`), the callee is written with its full name
+`Chrono.Gen.<module>.…` (Lean would otherwise read `weekday.Weekday.f` as a projection of the local).
 
 NORMAL FORM of the output: `do`-free, one `def` per function, `let` for Rust `let`s (always with the Lean type),
 `Res.bind (…) fun x =>` for each panicking step (bound to the Rust variable's name when it initialises or updates
@@ -700,9 +711,11 @@ class Parser:
             if self.at("{") and not nostruct and (segs[-1][0].isupper()):
                 self.i += 1
                 fs = []
+                base = None
                 while not self.at("}"):
-                    if self.at(".."):
-                        raise Refuse("struct update syntax")
+                    if self.eat(".."):
+                        base = self.parse_expr()
+                        break
                     fname = self.ident()
                     if self.eat(":"):
                         fe = self.parse_expr()
@@ -712,7 +725,7 @@ class Parser:
                     if not self.eat(","):
                         break
                 self.expect("}")
-                return N("slit", path=segs, fields=fs)
+                return N("slit", path=segs, fields=fs, base=base)
             return N("path", segs=segs)
         if self.at("<"):
             raise Refuse("qualified path `<T as Trait>::…`")
@@ -777,6 +790,21 @@ class FnItem:
         self.idents = {t.v for t in self.toks[self.sig_i:p.i] if t.k == "id"}
         self.parsed = (params, has_self, ret, body)
         return self.parsed
+
+
+class ConstItem(FnItem):
+    """a `const NAME: T = e;` whose initialiser is not a plain constant expression (it calls a `const fn`): read as
+    a function without parameters with body `e` (compile-time evaluation has the semantics of the run-time one;
+    a panic there would be a compile error)"""
+
+    def __init__(self, mod, owner, name, ty, e, rel):
+        FnItem.__init__(self, mod, owner, None, name, [], 0, False, rel)
+        self.parsed = ([], False, ty, N("block", stmts=[], tail=e))
+        self.idents = set()
+        self.is_const = True
+
+    def rust_path(self):
+        return (self.owner + "::" if self.owner else "") + self.name + " (const)"
 
 
 class Crate:
@@ -1222,6 +1250,20 @@ class FnFront:
                 return None
         return self.gen.const_lookup(self.item.mod, owner, name, self)
 
+    def const_item(self, segs):
+        """the constant `segs` as a parameterless function (see ConstItem), or None"""
+        owner = None
+        if len(segs) >= 2:
+            owner = self.item.owner if segs[-2] == "Self" else segs[-2]
+        d = self.gen.const_decl(self.item.mod, segs[-1], owner)
+        if d is None or d[1] is None:
+            return None
+        ty, e, rel, dmod, downer = d
+        key = ("constitem", dmod, downer, segs[-1])
+        if key not in self.gen.cache:
+            self.gen.cache[key] = ConstItem(dmod, downer, segs[-1], ty, e, rel)
+        return self.gen.cache[key]
+
     # -- inference
     def infer_fn(self):
         params, has_self, ret, body = self.item.parse()
@@ -1305,7 +1347,15 @@ class FnFront:
                 if c is not None:
                     e.res = ("table", segs[-1])
                     return self.norm(c[0])
-            c = self.find_const(segs)
+            try:
+                c = self.find_const(segs)
+            except Refuse as ex:
+                item = self.const_item(segs)
+                if item is None:
+                    raise ex
+                info = self.gen.fn_info(item)
+                e.res = ("constfn", info)
+                return info.ret
             if c is not None:
                 e.res = ("const", c[1], "::".join(segs))
                 return c[0]
@@ -1386,7 +1436,12 @@ class FnFront:
             if a["kind"] != "struct":
                 raise Refuse(f"struct literal of {name}")
             want = [f for f, _ in a["fields"]]
-            if sorted(want) != sorted(f for f, _ in e.fields):
+            given = [f for f, _ in e.fields]
+            if e.base is not None:
+                if len(set(given)) != len(given) or not set(given) <= set(want):
+                    raise Refuse(f"struct literal of {name}: unknown or repeated field")
+                T.unify(self.infer(e.base, env, t), t, "(struct update base)")
+            elif sorted(want) != sorted(given):
                 raise Refuse(f"struct literal of {name}: field set differs from the declaration")
             for fname, fe in e.fields:
                 ft = self.field_type(t, fname)
@@ -1630,6 +1685,10 @@ class FnFront:
             if name == "unwrap" and not e.args:
                 e.res = ("unwrap",)
                 return tr_[1]
+            if name == "unwrap_or" and len(e.args) == 1:
+                t = T.unify(tr_[1], self.infer(e.args[0], env, tr_[1]), "(unwrap_or)")
+                e.res = ("unwrap_or",)
+                return t
             raise Refuse(f"Option method `{name}` is outside the subset")
         if tr_[0] == "adt":
             item = self.gen.resolve_fn(tr_[1], name, self.item, method=True)
@@ -1984,6 +2043,8 @@ class FnTrans:
                 raise Refuse(f"constant `{r[2]}` of a type outside the subset")
             if r[0] == "table":
                 raise Refuse(f"table `{r[1]}` used other than by indexing")
+            if r[0] == "constfn":
+                return self.apply_fn(r[1], [], k, hint)
         if kd == "un":
             t = self.ty(e)
             if e.op == "-":
@@ -2097,11 +2158,20 @@ class FnTrans:
             order = [f for f, _ in a["fields"]]
 
             def ks(vs):
-                if len(order) == 1:
-                    return k(vs[0])
                 by = {f: v for (f, _), v in zip(e.fields, vs)}
+                if e.base is not None:
+                    # `T { f: e, ..base }`: the fields not listed are copied from `base`, which is evaluated last
+                    b = vs[-1]
+                    if len(order) == 1:
+                        return k(by.get(order[0], b))
+                    for f in order:
+                        if f not in by:
+                            by[f] = V(lit_text(b.cval[f]), 100, cval=b.cval[f]) if isinstance(b.cval, dict) \
+                                else V(f"{b.emb(100)}.{f}", 100)
+                elif len(order) == 1:
+                    return k(vs[0])
                 return k(V(f"{self.gen.struct_name(t[1])}.mk " + " ".join(by[f].emb(100) for f in order), 90))
-            return self.tr_list([fe for _, fe in e.fields], env, ks)
+            return self.tr_list([fe for _, fe in e.fields] + ([e.base] if e.base is not None else []), env, ks)
         if kd == "block":
             return self.tr_block(e, env, k, hint)
         if kd == "if":
@@ -2134,6 +2204,15 @@ class FnTrans:
             return self.tr_mcall(e, env, k, hint)
         raise Refuse(f"expression kind `{kd}`")
 
+    def unwrap_or(self, v, d, t, k):
+        if getattr(v, "inner", None) is not None:
+            return k(v.inner)
+        if v.text == "none":
+            return k(d)
+        if t[0] == "int" or self.lean_type(t) == "Int":
+            return k(V(f"{v.emb(100)}.getD {d.emb(100)}", 90))
+        raise Refuse("unwrap_or on a non-integer Option")
+
     def proj(self, v, i, n):
         s = v.emb(100)
         if n == 2:
@@ -2145,7 +2224,12 @@ class FnTrans:
         if a["kind"] == "newtype" or len(a["fields"]) == 1:
             x = d["0"] if "0" in d else list(d.values())[0]
             return vlit(x)
-        return V(f"{self.gen.struct_name(t[1])}.mk " + " ".join(lit_text(d[f]) for f, _ in a["fields"]), 90, cval=d)
+        parts = []
+        for f, ft in a["fields"]:
+            x = d[f]
+            parts.append(lit_text(x) if isinstance(x, int) else
+                         self.const_struct(x, self.gen.norm_type(ft, t[1])).emb(100))
+        return V(f"{self.gen.struct_name(t[1])}.mk " + " ".join(parts), 90, cval=d)
 
     def match_opt(self, v, name, ksome, none_code):
         return self.match_opt_full(v, name, ksome, none_code)
@@ -2178,7 +2262,10 @@ class FnTrans:
         raise Refuse("call form")
 
     def apply_fn(self, info, vs, k, hint):
-        text = info.lean + "".join(" " + v.emb(100) for v in vs)
+        name = info.lean
+        if name.split(".")[0] in self.used:      # a local variable is called like the module: write the full name
+            name = "Chrono.Gen." + name
+        text = name + "".join(" " + v.emb(100) for v in vs)
         if info.impure:
             return self.res_bind(text, k, hint)
         return k(V(text, 90 if vs else 100))
@@ -2230,6 +2317,10 @@ class FnTrans:
             return self.tr(e.recv, env, lambda v: k(V(f"{v.emb(100)}.{'isSome' if r[1] else 'isNone'}", 100)))
         if r[0] == "unwrap":
             return self.tr(e.recv, env, lambda v: self.match_opt(v, hint, k, self.panic()))
+        if r[0] == "unwrap_or":
+            # the default is evaluated (eagerly, as in Rust) after the receiver and before the choice
+            t = self.ty(e)
+            return self.tr(e.recv, env, lambda v: self.tr(e.args[0], env, lambda d: self.unwrap_or(v, self.val(d, t), t, k)))
         raise Refuse("method call form")
 
     # -- control flow
@@ -2607,9 +2698,14 @@ class Gen:
                 return self.lean_type(self.norm_type(a["field"], t[1]))
             if kind == "single":
                 return self.lean_type(self.norm_type(a["fields"][0][1], t[1]))
-            for _, ft in a["fields"]:
-                if self.lean_type(self.norm_type(ft, t[1])) != "Int":
-                    raise Refuse(f"struct {t[1]} has a non-integer field")
+            if a.get("busy"):
+                raise Refuse(f"struct {t[1]} is recursive")
+            a["busy"] = True
+            try:
+                # field types first: a nested structure is registered (and emitted) before this one
+                a["lean_fields"] = [(f, self.lean_type(self.norm_type(ft, t[1]))) for f, ft in a["fields"]]
+            finally:
+                a["busy"] = False
             return self.struct_name(t[1])
         raise Refuse(f"type {show_type(t)} is outside the subset")
 
@@ -2900,9 +2996,15 @@ FILES = [
     ("src/weekday.rs", "weekday"),
     ("src/month.rs", "month"),
     ("src/traits.rs", "traits"),
+    ("src/naive/time/mod.rs", "naive_time"),
+    ("src/offset/fixed.rs", "offset_fixed"),
+    ("src/naive/mod.rs", "naive"),
+    ("src/naive/datetime/mod.rs", "naive_datetime"),
 ]
 
-# (file, impl type | None, function [, trait, Self type for a trait default method])
+# (file, impl type | None, function)                      an inherent / free function
+# (file, impl type, function, trait)                      a method of `impl trait for type`
+# (file, None, function, trait, Self type)                a trait default method read at the given Self
 TARGETS = (
     [("src/naive/internals.rs", "YearFlags", f) for f in
      ["from_year_mod_400", "from_year", "ndays", "isoweek_delta", "nisoweeks"]]
@@ -2926,6 +3028,28 @@ TARGETS = (
        ["succ", "pred", "days_since", "num_days_from_monday", "number_from_monday", "num_days_from_sunday",
         "number_from_sunday"]]
     + [("src/month.rs", "Month", f) for f in ["succ", "pred", "number_from_month"]]
+    + [("src/naive/time/mod.rs", "NaiveTime", f) for f in
+       ["from_hms_opt", "from_hms_milli_opt", "from_hms_micro_opt", "from_hms_nano_opt",
+        "from_num_seconds_from_midnight_opt", "hms", "num_seconds_from_midnight", "nanosecond",
+        "overflowing_add_signed", "overflowing_sub_signed", "signed_duration_since", "overflowing_add_offset",
+        "overflowing_sub_offset"]]
+    + [("src/naive/time/mod.rs", "NaiveTime", f, "Timelike") for f in
+       ["hour", "minute", "second", "nanosecond", "with_hour", "with_minute", "with_second", "with_nanosecond",
+        "num_seconds_from_midnight"]]
+    + [("src/traits.rs", None, f, "Timelike", "NaiveTime") for f in ["hour12", "num_seconds_from_midnight"]]
+    + [("src/offset/fixed.rs", "FixedOffset", f) for f in
+       ["east_opt", "west_opt", "local_minus_utc", "utc_minus_local"]]
+    + [("src/naive/date/mod.rs", "NaiveDate", f) for f in
+       ["checked_add_months", "checked_sub_months", "checked_add_days", "checked_sub_days", "checked_add_signed",
+        "checked_sub_signed", "signed_duration_since", "years_since", "from_weekday_of_month_opt", "week"]]
+    + [("src/naive/date/mod.rs", "NaiveDate", f, "Datelike") for f in
+       ["with_year", "with_month", "with_month0", "with_day", "with_day0", "with_ordinal", "with_ordinal0"]]
+    + [("src/naive/mod.rs", "NaiveWeek", f) for f in
+       ["new", "first_day", "checked_first_day", "last_day", "checked_last_day"]]
+    + [("src/naive/datetime/mod.rs", "NaiveDateTime", f) for f in
+       ["checked_add_signed", "checked_sub_signed", "checked_add_offset", "checked_sub_offset",
+        "overflowing_add_offset", "overflowing_sub_offset", "signed_duration_since", "checked_add_months",
+        "checked_sub_months", "checked_add_days", "checked_sub_days"]]
 )
 
 
@@ -2944,15 +3068,19 @@ def build(read):
         rel, owner, name = tgt[0], tgt[1], tgt[2]
         mod = dict(FILES)[rel]
         label = f"{rel}: " + (f"{owner}::" if owner else "") + name
-        if len(tgt) > 3:
+        if len(tgt) == 4:
+            label = f"{rel}: <{owner} as {tgt[3]}>::{name}"
+        if len(tgt) > 4:
             label = f"{rel}: {tgt[3]}::{name} (Self = {tgt[4]})"
         if rel in problems:
             missing.append((label, problems[rel]))
             continue
         try:
-            if len(tgt) > 3:
+            if len(tgt) > 4:
                 cands = [x for x in crate.fns.get((None, tgt[3], name), []) if x.mod == mod]
                 cands = [gen.specialise(x, tgt[4], tgt[3]) for x in cands]
+            elif len(tgt) == 4:
+                cands = [x for x in crate.fns.get((owner, tgt[3], name), []) if x.mod == mod]
             else:
                 cands = [x for x in crate.fns.get((owner, None, name), []) if x.mod == mod]
             if not cands:
@@ -2973,8 +3101,8 @@ def build(read):
         a = crate.adts[full.split(".")[-1]]
         out.append(f"/-- `struct {full.split('.')[-1]}` -/")
         out.append(f"structure {full} where")
-        for f, _ in a["fields"]:
-            out.append(f"  {f} : Int")
+        for f, ft in a["lean_fields"]:
+            out.append(f"  {f} : {ft}")
         out.append("  deriving DecidableEq, Repr")
         out.append("")
     for info in gen.order:
